@@ -339,8 +339,12 @@ def c_op(case, op, ob, nn):
         return "(WDeliver %d %s %d %s %s)" % (ob["idx"] if not ob.get("skipped_empty") else 0, coq_bool(k == "dup"),
                                               op["max"], nows, coq_list([cs(x) for x in ob["order"]]))
     if k == "drop": return "(WDrop %d)" % ob["idx"]
+    if k in ("tick", "hear"): return "WNop"
     if k == "liveness":
-        sus = [cs(i) for i, lv in sorted(op["levels"].items()) if lv > 20.0]
+        lvls = op["levels"]
+        if case.get("realfd"):
+            lvls = (ob.get("extra") or {}).get("levels") or {}       # what the real detector answered (virtual clock)
+        sus = [cs(i) for i, lv in sorted(lvls.items()) if lv > 20.0]
         return "(WLiveness %d %s %s)" % (op["n"] % nn, coq_list(sus), c_nows(ob["nows"], op["n"] % nn))
     if k == "expire": return "(WExpire %d %d%%Z)" % (op["n"] % nn, ob["t"])
     if k == "join":
@@ -837,6 +841,10 @@ def glue_probes(pid, binary, wd, rng, quick, which=("burst", "round", "heartbeat
 def replay_glue(obj, binary, wd):
     """replay of a glue-probe finding; returns True if obj was one"""
     kind = obj.get("kind")
+    if kind == "fd":
+        out = run_world(binary, wd, [obj["case"]], tag="replay")[0]
+        print(json.dumps({"monitor": fd_monitor(obj["case"], out)}, indent=1))
+        return True
     if kind not in ("burst", "round", "heartbeat"):
         return False
     case = obj["case"]
@@ -905,3 +913,126 @@ def gen_bulk_case(rng, cid):
     for _ in range(rng.randint(8, 14)):
         ops += X(0, 1)
     return {"id": cid, "nodes": nodes, "ops": ops}
+
+
+
+# ---------------------------------------------------------------------------------------------------------------
+# The real accrual failure detector wired into the real cluster state (as gossip.New does), behind a virtual clock.
+
+def gen_fd_case(rng, cid):
+    """2-4 nodes; time advances in ticks; pairs that talk exchange digests (or the detector is told directly, as the
+    delta handler does); every node evaluates liveness every tick. One node falls silent for a while, and may come
+    back; it may also be gone long enough to be expired"""
+    nn = rng.randint(2, 4)
+    boot = rng.choice([200, 200, 1000])
+    nodes = [{"id": H(IDS[i]), "addr": H("10.0.0.%d:7000" % (i + 1))} for i in range(nn)]
+    ops = [{"op": "upsert", "n": n, "k": H("k"), "v": H("v%d" % n)} for n in range(nn)]
+    for n in range(1, nn):
+        ops.append({"op": "join", "a": n, "b": 0})
+    X = lambda a, b: [{"op": "send", "a": a, "b": b, "max": 1400}] + [{"op": "deliver", "i": 0, "max": 1400} for _ in range(4)]
+    step = rng.choice([100, 250, 1000])
+    victim = rng.randrange(nn)
+    t_silent = rng.randint(3, 12)
+    t_back = t_silent + rng.choice([2, 15, 30, 60, 10 ** 6]) * max(1, (20 * boot) // step // 10 + 1)
+    nticks = rng.randint(25, 60)
+    for t in range(nticks):
+        ops.append({"op": "tick", "n": 0, "d": step if rng.random() < 0.85 else rng.choice([step // 2, step * 2, 1])})
+        silent = t_silent <= t < t_back
+        for a in range(nn):
+            for b in range(nn):
+                if a == b or (silent and victim in (a, b)) or rng.random() < 0.1:
+                    continue
+                if a < b and rng.random() < 0.25:
+                    ops += X(a, b)
+                else:
+                    ops.append({"op": "hear", "n": a, "ref": nodes[b]["id"]})
+        for n in range(nn):
+            if rng.random() < 0.9:
+                ops.append({"op": "liveness", "n": n, "levels": {}})
+            if silent and n != victim and t > t_silent + 8 and rng.random() < 0.05:
+                ops.append({"op": "expire", "n": n, "ref": nodes[victim]["id"], "d": 1})      # the expiry sweep, a minute on
+    return {"id": cid, "nodes": nodes, "ops": ops, "realfd": boot}
+
+
+def fd_monitor(case, out):
+    """rules that follow from the property text alone (no re-implementation of phi):
+    - a peer leaves the unreachable state only after the detector was told it was heard from;
+    - a peer silent for more than 20x the largest gap ever seen between its messages (bootstrap interval included) is
+      unreachable at the next liveness evaluation (the level is the silence over the MEAN of recent gaps);
+    - a peer whose silence is below 20x the smallest gap (bootstrap included) is not unreachable"""
+    if out.get("panic"):
+        return {"step": 0, "why": "panic/timeout: " + out["panic"], "sig": "panic"}
+    boot = case["realfd"] * 10 ** 6
+    ids = [n["id"] for n in case["nodes"]]
+    nm = lambda h: bytes.fromhex(h).decode("latin-1")
+    last, gaps, heard_since_unreach, views = {}, {}, {}, {}
+    for i, (op, ob) in enumerate(zip(case["ops"], out["obs"])):
+        ex = ob.get("extra") or {}
+        acting = [s["n"] for s in ob["summary"]]
+        calls = ex.get("fdcalls") or []
+        n = acting[0] if acting else None
+        for c in calls:
+            f = c.split("|")
+            key = (n, f[1])
+            if f[0] == "report":
+                t = int(f[2])
+                if key in last:
+                    gaps.setdefault(key, []).append(t - last[key])
+                last[key] = t
+                heard_since_unreach[key] = True
+            elif f[0] == "level":
+                last.setdefault(key, int(f[2]))          # a peer never heard from: the clock starts at the first question
+            elif f[0] == "remove":
+                last.pop(key, None); gaps.pop(key, None)
+        for ev in ob["events"]:
+            key = (ev["n"], ev["id"])
+            if ev["kind"] == "unreach":
+                heard_since_unreach[key] = False
+            elif ev["kind"] == "reach" and not heard_since_unreach.get(key, False):
+                return {"step": i, "why": "node %s restored %s as reachable although nothing was heard from it since it was marked unreachable"
+                                          % (nm(ids[ev["n"]]), nm(ev["id"])), "sig": "fd-restored-unheard"}
+        for v in ob["views"]:
+            if v["present"]: views[(v["n"], v["id"])] = v
+            else: views.pop((v["n"], v["id"]), None)
+        if op["op"] == "liveness" and n is not None:
+            now = ex.get("clock")
+            for (o, p), v in views.items():
+                if o != n or p == ids[n] or v["left"] or (n, p) not in last:
+                    continue
+                sil = now - last[(n, p)]
+                g = gaps.get((n, p), []) + [boot]
+                if sil > 20 * max(g) and not v["unreach"]:
+                    return {"step": i, "why": "node %s has not heard from %s for %d ms - more than 20x the largest gap ever seen (%d ms) - and still holds it as reachable"
+                                              % (nm(ids[n]), nm(p), sil // 10 ** 6, max(g) // 10 ** 6), "sig": "fd-silent-not-suspected"}
+                if sil < 20 * min(g) and v["unreach"]:
+                    return {"step": i, "why": "node %s heard from %s %d ms ago - less than 20x the smallest gap ever seen (%d ms) - and holds it as unreachable"
+                                              % (nm(ids[n]), nm(p), sil // 10 ** 6, min(g) // 10 ** 6), "sig": "fd-steady-suspected"}
+    return None
+
+
+def fd_probe(pid, binary, wd, rng, quick, corr=True):
+    """real detector + real state histories: monitor and (corr) the world model with the verdicts the real detector gave.
+    returns (violations, coverage)"""
+    cases = [gen_fd_case(rng, "fd%d" % i) for i in range(8 if quick else 120)]
+    outs = run_world(binary, wd, cases, tag="fd")
+    viol, kinds = [], {}
+    for c, o in zip(cases, outs):
+        for ob in o.get("obs") or []:
+            for ev in ob["events"]:
+                kinds[ev["kind"]] = kinds.get(ev["kind"], 0) + 1
+    for c, o in zip(cases, outs):
+        f = fd_monitor(c, o)
+        if f:
+            viol.append({"what": "%s real-detector monitor: %s (history %s, step %d)" % (pid, f["why"], c["id"], f["step"]), "found_input": True,
+                         "replay_obj": {"property": pid, "kind": "fd", "signature": f["sig"], "why": f["why"], "case": c}})
+            break
+    ndis = 0
+    if corr and not viol:
+        okc = [(c, o) for c, o in zip(cases, outs) if not o.get("panic")]
+        dis = correspondence(pid, wd, [c for c, _ in okc], [o for _, o in okc], tag="fd")
+        ndis = len(dis)
+        if dis:
+            d = dis[0]
+            viol.append({"what": "model/implementation disagreement (%s) at step %d of real-detector history %s" % (",".join(d["names"]), d["step"], okc[d["case"]][0]["id"]),
+                         "found_input": False, "replay_obj": {"broken": "corr:%s:gossip_h:world-realfd" % pid, "disagreement": d, "case": okc[d["case"]][0]}})
+    return viol, {"histories": len(cases), "ops": sum(len(c["ops"]) for c in cases), "events": kinds, "disagreements": ndis}
